@@ -315,7 +315,11 @@ class Rig:
         try:
             returned = fn()
         except Exception as e:  # noqa: BLE001 - whatever escapes the writer is the observation
-            error = f'{type(e).__name__}: {e}'
+            import traceback
+
+            tb = [f for f in traceback.extract_tb(e.__traceback__) if '/exabgp/' in f.filename]
+            where = f'{os.path.basename(tb[-1].filename)}:{tb[-1].name}' if tb else '?'
+            error = f'{type(e).__name__} @{where}: {e}'
         return Emitted(enc, self._drain(enc), error, returned)
 
     # -- events ------------------------------------------------------------------------------
@@ -586,6 +590,15 @@ def marker_in_leaves(t: Any) -> int:
     return 0
 
 
+def attribute_level(path: list[str]) -> list[str]:
+    """A position inside an attribute's own value is named by the attribute: every repeated or
+    misplaced member inside e.g. `tunnel-encap` has one cause (its TLVs are rendered as they come)."""
+    for i in range(len(path) - 1):
+        if path[i] == 'attribute' and i + 2 < len(path):
+            return path[: i + 2] + ['...']
+    return path
+
+
 def key_shape(k: str) -> str:
     """Keys that are values by design (addresses, prefixes) or end in a code number
     (`tunnel-type-7`, `unknown-subtlv-3`, `attribute-0x23-0xC0`): abstracted for canonical forms."""
@@ -595,13 +608,48 @@ def key_shape(k: str) -> str:
     return re.sub(r'-\d+$', '-<n>', k)
 
 
+def enclosing_path(text: str) -> list[str]:
+    """Keys of the containers open at the end of `text` (a prefix of a record), `*` for arrays."""
+    stack: list[str] = []
+    pending = '*'
+    i, n = 0, len(text)
+    while i < n:
+        c = text[i]
+        if c == '"':
+            j = i + 1
+            while j < n and text[j] != '"':
+                j += 2 if text[j] == '\\' else 1
+            word = text[i + 1 : j]
+            k = j + 1
+            while k < n and text[k] == ' ':
+                k += 1
+            if k < n and text[k] == ':':
+                pending = word
+            i = j + 1
+            continue
+        if c in '{[':
+            stack.append(pending if c == '{' or pending != '*' else '*')
+            pending = '*'
+        elif c in '}]':
+            if stack:
+                stack.pop()
+            pending = '*'
+        elif c == ',':
+            pending = '*'
+        i += 1
+    return stack
+
+
+def family_shape(k: str) -> str:
+    return '<family>' if re.fullmatch(r'(ipv4|ipv6|l2vpn|bgp-ls) [a-z0-9-]+', k) else key_shape(k)
+
+
 def bad_context(rec: bytes, pos: int) -> dict:
-    """Where the Lean parser stopped, as a canonical form: the last string before the position and
+    """Where the Lean parser stopped, as a canonical form: the containers open at that point and
     the offending token (numbers abstracted; NaN / Infinity named as what they are)."""
-    before = rec[:pos].decode('ascii', 'replace')
-    strings = re.findall(r'"((?:[^"\\]|\\.)*)"', before)
-    after = key_shape(strings[-1]) if strings else ''
     tok = re.split(r'[ ,\]\}]', rec[pos : pos + 24].decode('ascii', 'replace'), maxsplit=1)[0]
     if tok in ('NaN', 'Infinity', '-Infinity'):
         return {'token': 'non-finite-number'}
-    return {'after': after[:40], 'token': re.sub(r'\d+', '<n>', tok)[:16]}
+    raw = enclosing_path(rec[:pos].decode('ascii', 'replace'))[1:]
+    path = ['<family>' if i and raw[i - 1] in ('announce', 'withdraw') else family_shape(k) for i, k in enumerate(raw)]
+    return {'in': path, 'token': re.sub(r'\d+', '<n>', tok)[:16]}
